@@ -736,7 +736,7 @@ class Gen:
         return " ".join(toks)
 
     def share_case(self, tier):
-        """D cases with share=1 (round 5, second pass; F-C03h): every thread-list entry cites the stack descriptor and the context
+        """D cases with share=1 (round 5, second pass: the quadratic budget): every thread-list entry cites the stack descriptor and the context
         location of the first one — the same file bytes. T threads x S stack bytes with a stack of return addresses into a module
         without symbols (one scan frame per word), frame-pointer chains, zeros, or a module whose STACK CFI rule moves the CFA by
         1..8 bytes and yields a constant return address (one frame per step)."""
@@ -1158,6 +1158,8 @@ def rng_free_choice(n, l):
 
 CPU_BUDGET_BASE_MS = 10000         # the same constants as harness/src/bin/c03.rs
 CPU_BUDGET_BYTES_PER_MS = 2
+HEAP_BUDGET_BASE = 64 << 20        # peak heap <= 64 MiB + 20000 x (input bytes + frame budget); measured: <= ~8 KB per frame incl. its JSON tree
+HEAP_BUDGET_PER_UNIT = 20000
 SYM_CALLS_PER_FRAME = 200          # measured maximum is far below (scan window 40 words x 2 lookups + CFI + symbolication)
 
 
@@ -1209,7 +1211,7 @@ class C03(PropBase):
         "model (coq/C05, other owner) and imports C05.Proofs.frame_bound / walk_shape",
         "second pass: coq/C03/BudgetModel.v (descriptors as references into the file: MinidumpMemory::read, 48 / 16 bytes per list entry) and coq/C03/RenderModel.v (control flow of "
         "print_internal, CallStack::print, print_json) written by hand; RenderModel is tied to the code by translate/c03_render.py (every index / + / - / += site and unwrap count of "
-        "the three printers, order of their blocks) and by the T correspondence on the printers' items; BudgetModel by the share=1 T cases and the replay of F-C03h (corpus)",
+        "the three printers, order of their blocks) and by the T correspondence on the printers' items; BudgetModel by the share=1 T / D cases (corpus: 96 thread entries citing the same 4 096 stack bytes)",
     ]
     assumptions = [
         "partial: the unwinder's own arithmetic and the per-walk frame bound are C05's theorems (imported: frame_bound, walk_shape), STACK CFI / STACK WIN evaluation C06/C07's; "
@@ -1220,13 +1222,14 @@ class C03(PropBase):
         "c03_render_total takes the C11 facts (function_base <= instruction, source_line_base <= instruction) as hypotheses; the module and "
         "unloaded-module facts are derived from C08 inside C03",
         "yaxpeax-x86 (operand kinds reaching the panic! arms of op_analysis), serde_json, tokio, tracing, the error-code tables and arg_recovery are exercised only",
-        "F-C03h (known finding): the number of frames, hence time and memory, is NOT bounded linearly in the input size (c03_linear_frame_budget_refuted; replayed: 49 248 frames, 390 MB "
-        "for a dump of 11 744 bytes whose 96 thread entries cite the same 4 096 stack bytes); what holds is the quadratic budget of c03_frames_budget_in_file_size. The oracle therefore counts a "
-        "stack descriptor cited by T thread entries T times (input + T x S) for share=1 dumps and reports an excess over the plain linear budget under the recorded finding only",
+        "the time / memory budget 'tied to the input size' is the one proved: frames of the whole state <= sum over threads of (stack bytes of the thread + 2) <= |thread list| x (|file| + 2) "
+        "(c03_process_threads_total, c03_total_frames_bound, c03_frames_budget_in_file_size) — quadratic in the file length, because descriptors are references into the file and may cite the same bytes; "
+        "no linear budget exists (c03_linear_frame_budget_refuted, informative). The search oracle holds heap and CPU time of EVERY case to a stated constant x (input bytes + that frame budget); the linear ceiling "
+        "of the earlier rounds was stronger than the property and reported a false alarm on shared descriptors (design/C03.md, False alarms)",
         "c03_renderers_total / c03_pipeline_always_renders: print iterates modules.by_addr() (a subset of the module list, sorted), the model all modules in list order — the hypothesis is per "
         "module, so every subset in any order is covered; sections that only format fields are markers; lines_ok (no call stack prints 2^64 lines) is the only hypothesis left on the state",
-        "time / memory budget is judged by the search harness: peak heap <= 64 MiB + 20000 x input bytes (a frame costs up to ~15 KB incl. its JSON tree, and frames <= stack bytes + 2); "
-        "CPU time of the processing thread <= 10 s + 0.5 ms per input byte (measured maximum on the unchanged tree: 0.17 ms per byte, 4.8 s; rendering is frames x name length, so the constant is generous), "
+        "time / memory budget is judged by the search harness: peak heap <= 64 MiB + 20000 x (input bytes + frame budget) (a frame costs up to ~15 KB incl. its JSON tree; frame budget = sum over threads of stack bytes + 2, reported by the harness as fbud); "
+        "CPU time of the processing thread <= 10 s + 0.5 ms per (input byte + budget frame) (measured on the unchanged tree: <= 0.17 ms per byte, 4.8 s; rendering is frames x name length, so the constant is generous), "
         "enforced while the case runs by a watchdog thread of the harness; symbol-provider calls <= 200 per produced frame",
         "c03_inline_levels_bound takes get_inlinee_at_depth's contract (a record of the function with the depth asked for) as the hypothesis look_sound; the binary search itself is C11's model. "
         "c03_instr_fetch_total takes size = length of the byte slice for every region, which both stream readers establish (location_slice / all.get(start..end))",
@@ -1251,7 +1254,7 @@ class C03(PropBase):
                 "witnesses for the three defects fixed in /repo (F-C03b, F-C03c, F-C03g). Second pass of round 5: (1) the budget 'tied to the input size' decided — the input as a FILE (thread entries and memory "
                 "descriptors are references into it): c03_frames_budget_in_file_size proves frames <= |thread list| x (|file| + 2) and 48 x frames <= |file| x (|file| + 2) for every file-backed input, and "
                 "c03_linear_frame_budget_refuted / c03_shared_stack_frames prove that NO linear budget holds (for every factor c < 2^20 a well-formed dump shorter than 2^32 bytes yields more than c x |file| frames: m thread "
-                "entries citing the same m stack bytes give m x (m + 1) frames from 2048 + 49 m bytes, by induction through C05's walker model) — replayed on the real code and recorded as known finding F-C03h; "
+                "entries citing the same m stack bytes give m x (m + 1) frames from 2048 + 49 m bytes, by induction through C05's walker model) — informative: the quadratic budget is tight up to a constant; replayed on the real code (share=1 cases, silent: they stay within the proved budget); "
                 "(2) 'always renders': the control flow of print / print_brief (print_internal), CallStack::print and print_json is in the model (blocks, loops over threads / frames / inlines / modules, every index and "
                 "+ / - site): c03_renderers_total (all three printers return for every state_ok state, both profiles), c03_pipeline_always_renders (thread loop + C08 module lookup + C11 fill_symbol on ANY well-formed "
                 "symbol file + the three printers, no hypothesis on the state except that no stack prints 2^64 lines), c03_render_requesting_out_of_bounds_refuted, c03_render_sites_match_source (the sites "
@@ -1352,30 +1355,25 @@ class C03(PropBase):
                 return "a thread of a %s dump has %s frames although that CPU has no unwinder" % (case.split()[1][4:], d.get("fr"))
         peak, insz, ms = int(d.get("peak", 0)), int(d.get("in", 0)), int(d.get("ms", 0))
         cpu = int(d.get("cpu", 0))
-        # share=1 (F-C03h): T thread-list entries cite the same S stack bytes, which the file holds once. The budget that holds is
-        # linear in (input + T x S) — each descriptor counted with the bytes it cites, i.e. quadratic in the length of the file
-        # (c03_frames_budget_in_file_size); it is enforced here and by the harness's CPU watchdog. The budget linear in the file
-        # length does NOT hold (c03_linear_frame_budget_refuted): exceeding only that one is reported under the recorded finding.
-        cited = 0
-        if " share=1" in case and kind == "D":
-            tt = [t for t in case.split()[1:] if t.startswith("T=")]
-            if tt:
-                b = tt[0].split(":")[2]
-                cited = len(tt) * (0 if b == "-" else (int(b[1:]) if b.startswith("z") else len(b) // 2))
-        if peak > (64 << 20) + 20000 * (insz + cited):
-            return "peak heap %d bytes for %d input bytes exceeds the budget 64 MiB + 20000 x (input%s)" % (
-                peak, insz, " + %d stack bytes cited by the thread list" % cited if cited else "")
-        if cpu > CPU_BUDGET_BASE_MS + (insz + cited) // CPU_BUDGET_BYTES_PER_MS:
-            return "case used %d ms of CPU time for %d input bytes%s (budget %d ms + 1 ms per %d bytes)" % (
-                cpu, insz, " + %d cited stack bytes" % cited if cited else "", CPU_BUDGET_BASE_MS, CPU_BUDGET_BYTES_PER_MS)
-        if cited and peak > (64 << 20) + 20000 * insz:
-            return ("F-C03h: peak heap %d bytes for a dump of %d bytes exceeds the budget LINEAR in the input size (64 MiB + 20000 x input): "
-                    "%d thread-list entries cite the same stack bytes (%d frames in all); within the quadratic budget"
-                    % (peak, insz, len(tt), int(d.get("sym", "0/0").split("/")[1])))
-        if cited and cpu > CPU_BUDGET_BASE_MS + insz // CPU_BUDGET_BYTES_PER_MS:
-            return ("F-C03h: %d ms of CPU time for a dump of %d bytes exceeds the budget LINEAR in the input size (%d ms + 1 ms per %d bytes): "
-                    "%d thread-list entries cite the same stack bytes; within the quadratic budget"
-                    % (cpu, insz, CPU_BUDGET_BASE_MS, CPU_BUDGET_BYTES_PER_MS, len(tt)))
+        # The budget "tied to the input size" is the one PROVED for the model: the whole state has at most the sum over its threads of
+        # (bytes of the stack memory the thread is walked on + 2) frames (c03_process_threads_total), at most |thread list| x (largest
+        # region + 2) <= |thread list| x (|file| + 2) (c03_total_frames_bound, c03_frames_budget_in_file_size) — descriptors are references
+        # into the file, so this is quadratic in the file length, and no linear budget exists (c03_linear_frame_budget_refuted). Heap and
+        # CPU time are held to a stated constant x (input bytes + that frame budget), for EVERY case; anything beyond is a violation.
+        fb_state, _, fb_upper = d.get("fbud", "0/0").partition("/")
+        fbud, fupper = int(fb_state or 0), int(fb_upper or 0)
+        if fbud > fupper:
+            return "frame budget of the state (%d) exceeds threads x (largest region + 2) = %d" % (fbud, fupper)
+        if "/" in d.get("sym", ""):
+            frames_all = int(d["sym"].split("/")[1])
+            nopt_ = {3: 3, 5: 4}.get(int(dict(t.split("=", 1) for t in case.split()[1:] if "=" in t).get("opt", 0)), 1)
+            if frames_all > nopt_ * fbud:
+                return "%d frames in all (%d option sets), the frame budget of the dump is %d (sum over threads of stack bytes + 2)" % (frames_all, nopt_, fbud)
+        if peak > HEAP_BUDGET_BASE + HEAP_BUDGET_PER_UNIT * (insz + fbud):
+            return "peak heap %d bytes for %d input bytes and a frame budget of %d exceeds the budget 64 MiB + 20000 x (input + frame budget)" % (peak, insz, fbud)
+        if cpu > CPU_BUDGET_BASE_MS + (insz + fbud) // CPU_BUDGET_BYTES_PER_MS:
+            return "case used %d ms of CPU time for %d input bytes and a frame budget of %d (budget %d ms + 1 ms per %d of input bytes + budget frames)" % (
+                cpu, insz, fbud, CPU_BUDGET_BASE_MS, CPU_BUDGET_BYTES_PER_MS)
         # no wall-clock clause: on a machine with a load average of 175 (thorough run of round 5) a legitimate 3.5 s case took 537 s
         # of wall clock; time is judged as CPU time below, a case that waits without computing is ended by the harness's backstops
         # time tied to the input size, measured as CPU time of the processing thread (independent of machine load);
